@@ -20,7 +20,7 @@ META = {
         'interpretation of every dump_* function shows that each any-text payload (Str, Uri, Ref display, XStr '
         'payload, version header; metadata/dict/list/nested-grid values through dump_scalar) passes through such a '
         'pipeline.  JSON (D2): structure is delegated to json.dumps (no manual quoting in jsondumper); identity of the '
-        'string is the prefix/cascade agreement with capture markers (shared with C02).  Not decided: counting '
+        'string is the prefix/cascade agreement with capture markers (shared with C02).  Also (D1) every rebinding of the document text in parser.parse is the decode or a framing step (no normalisation/replace of the whole text), escape decoding is one left-to-right pass (no whole-text pre-pass), and (D2) JSON text payloads reach their constructors verbatim.  Not decided: counting '
         'grids/rows/cells of an executed round trip.'),
     'rule_text': 'obligations = code-point classes x {accepted, contained, decoded} for strings and URIs, whole-token '
                  'inclusions, text-carrying positions x routing, JSON text kinds x cascade/capture',
@@ -35,6 +35,8 @@ def run(ctx):
     for version in ('3.0', '2.0'):
         t = _zinc.writer_templates(ctx, 'C08.D1', 'zincdumper', 'zinc', version)
         _zinc.raw_positions(ctx, 'C08.D1', t, version)
+    from . import _parse
+    _parse.text_flow(ctx, 'C08.D1')
     # JSON (D2)
     try:
         fn, p, entries = J.extract_cascade(ctx.model)
@@ -45,4 +47,5 @@ def run(ctx):
         for kind in ('str', 'Uri', 'Ref+dis', 'Ref', 'XStr', 'Bin'):
             if kind in _zinc.kinds_for(version):
                 c02._kind(ctx, entries, kind, version, rule='C08.D2', rule3='C08.D2', rule5='C08.D2')
+    J.verbatim_payload(ctx, 'C08.D2', entries, fn)
     c06._shape(ctx)
